@@ -227,6 +227,9 @@ class Mod:
             pat = [False] * 5
         long_names = rng.random() < 0.2
         stem = f"{'a_rather_long_parameter_name_' if long_names else 'p'}{f.idx}_" if unique else ("a_rather_long_parameter_name_" if long_names else "p")
+        if unique and f.idx % 6 == 4:
+            # parameter names that begin with the name of a module the stub imports (or of the module itself)
+            stem = ["typing_", "collections_", "mypy_extensions_", self.name + "_", "vf_"][(f.idx // 6 + len(self.name)) % 5] + f"{f.idx}_"
         ndef = rng.choice([0, 0, 1, 2])
         pos = []
         for i in range(npo + nn):
@@ -309,6 +312,8 @@ class Mod:
                 cls_path = [rng.choice(["K0", "K1"])]
             prefix = {"module": "fn", "instance": "m", "class": "cm", "static": "sm", "property": "pr"}[kind]
             f = FuncSpec(idx, f"{prefix}_{'with_a_long_function_name_' if rng.random() < 0.1 else ''}{idx}", cls_path, kind, flavor)
+            if unique and idx % 9 == 5:
+                f.name = ["typing_", "collections_", self.name + "_"][(idx // 9) % 3] + f.name  # named like a module the stub imports
             self.gen_params(f, unique)
             f.subdeco = kind in ("class", "static", "property") and rng.random() < 0.2
             if self.opts.get("wrapped"):
